@@ -30,6 +30,7 @@ func init() {
 			{ID: "C10-R4", Doc: "the reducing merge used to read a spilled combiner back repairs its heap after every cursor move (shared)", Run: c10r4},
 			{ID: "C10-R8", Doc: "a merge heap is heapified after it has been filled (shared)", Run: c10r8},
 			{ID: "C10-R9", Doc: "a merge cursor moves only past a row that was taken (shared)", Run: c10r9},
+			{ID: "C11-R10", Doc: "comparison and hashing cover every key column, so keys equal for the hash are equal for the order (shared)", Run: c11r10},
 			{ID: "C11-R1", Doc: "spilled runs are encoded from views at non-zero offsets: codecs are handed exactly the view's rows (shared)", Run: c11r1},
 			{ID: "C10-R11", Doc: "frames on which a reader compares or hashes keys take their key prefix from the reader's own type, never from the caller's destination frame (shared)", Run: c10r11},
 			{ID: "C09-R11", Doc: "no error is swallowed by a redeclaration that shadows a named error result", Run: c09r11},
